@@ -12,6 +12,32 @@ from gen import common as C
 from gen import catalogue
 
 
+def generic_replay(ctx, H, path):
+    """Replay of a single recorded (type, payload, value source, script) case: the implementation is run
+    again on it and judged by the full-observation correspondence and by every trace monitor.
+    Replay files of other shapes (pairs of runs, pure-function cases, derive inputs, HTTP requests)
+    are replayed by re-running the whole (deterministic) check, which this function signals by False."""
+    from gen import engine as E
+    try:
+        d = json.load(open(path))
+    except (OSError, ValueError) as e:
+        raise C.Broken("cannot read replay file %s: %s" % (path, e))
+    if not (isinstance(d, dict) and "type" in d and "payload" in d):
+        return False
+    cases = E.replay(ctx, H, None, path)
+    obs = E.run_cases(H, cases)
+    E.decide(ctx, H, "replay", cases, obs, "corr_full",
+             [("mon_c01", "an error value dropped / used twice, or Ok although something was reported"),
+              ("mon_c04", "a report that is not true of the payload at its location"),
+              ("mon_c12", "deserialize panicked"),
+              ("mon_c02", "keep-going run differs from the reference interpreter (a fault dropped, duplicated or hidden)"),
+              ("mon_c11", "user functions invoked differ from the reference interpreter")],
+             "corr_full (replayed case)", extra_imports="KMon KSpec")
+    ctx.coverage.update({"evaluations": 1, "distinct_nontrivial": 1, "rule": "replay of one recorded case: " + path,
+                         "samples": [cases[0].describe()], "impl": obs[0]})
+    return True
+
+
 def main():
     ap = argparse.ArgumentParser()
     ap.add_argument("prop")
@@ -32,7 +58,10 @@ def main():
             if not ok:
                 raise C.Broken("coq build failed:\n" + log[-3000:])
         H = catalogue.build(ctx, mod)
-        mod.run(ctx, H)
+        if a.replay and generic_replay(ctx, H, a.replay):
+            pass
+        else:
+            mod.run(ctx, H)
     except C.Broken as e:
         print("BROKEN CHECK %s: %s" % (prop, e))
         sys.exit(2)
